@@ -9,6 +9,7 @@ import (
 	"bufio"
 	"context"
 	"strings"
+	"sync/atomic"
 
 	"github.com/google/osv-scalibr/extractor"
 	"github.com/google/osv-scalibr/extractor/filesystem"
@@ -21,6 +22,9 @@ type pkgListExtractor struct {
 	name  string
 	files map[string]bool
 	only  func(name string) bool
+	// size limit of the scan (0 = none) and the number of Extract calls that were handed a larger file
+	maxFile  int64
+	oversize *atomic.Int64
 }
 
 func (e *pkgListExtractor) Name() string                          { return e.name }
@@ -33,6 +37,9 @@ func (e *pkgListExtractor) ToPURL(p *extractor.Package) *purl.PackageURL {
 func (e *pkgListExtractor) FileRequired(api filesystem.FileAPI) bool { return e.files[api.Path()] }
 func (e *pkgListExtractor) Extract(ctx context.Context, input *filesystem.ScanInput) (inventory.Inventory, error) {
 	inv := inventory.Inventory{}
+	if e.maxFile > 0 && e.oversize != nil && input.Info != nil && input.Info.Size() > e.maxFile {
+		e.oversize.Add(1)
+	}
 	sc := bufio.NewScanner(input.Reader)
 	for sc.Scan() {
 		f := strings.Fields(sc.Text())
